@@ -2,6 +2,7 @@ SPECIFICATION Spec
 CONSTANTS
   Dev = {"cache-ops"}
   MaxCalls = 3
+  Classes = FALSE
   MaxOps = 5
 INVARIANTS WriteLive
 VIEW View
